@@ -42,7 +42,7 @@ func newMachine(P *Program, fn *ssa.Function, fc *FuncContract) *Machine {
 		implUsed: map[string]*types.Interface{}, globals: map[*ssa.Global]int64{},
 		trusted: map[string]bool{}, usedContracts: map[string]bool{},
 		loops: map[*ssa.Function]*loopInfo{}, loopHavoc: map[string]map[string]bool{},
-		baseInfo: map[int]*baseArrInfo{}, maxPaths: 5000, ctxParent: map[int]*Iface{}, runeSrc: map[int]*runeInfo{}, ownedChans: map[int]bool{}, knownCode: map[int]*ssa.Function{}, guardedMaps: map[int]bool{}, recCache: map[*ssa.Function]bool{}, recReads: map[*ssa.Function][]string{}, recDepth: map[*ssa.Function]int{}, memSortOf: map[string]*Sort{},
+		baseInfo: map[int]*baseArrInfo{}, maxPaths: 5000, ctxParent: map[int]*Iface{}, runeSrc: map[int]*runeInfo{}, ownedChans: map[int]bool{}, transferred: map[int]bool{}, knownCode: map[int]*ssa.Function{}, guardedMaps: map[int]bool{}, recCache: map[*ssa.Function]bool{}, recReads: map[*ssa.Function][]string{}, recDepth: map[*ssa.Function]int{}, memSortOf: map[string]*Sort{},
 	}
 	if fc != nil && fc.MaxPaths > 0 {
 		m.maxPaths = fc.MaxPaths
